@@ -396,6 +396,25 @@ fn enumerate(t: Tier) -> Vec<Case> {
     out
 }
 
+fn fuzz_case(mut c: Case) -> Case {
+    // a uniformly decoded u16 would almost always be a huge table (slow): keep most tables small
+    // and reach the 16-bit boundaries through a few selected values
+    c.channel_max = match c.channel_max % 128 {
+        0 => [65534u16, 65535][(c.channel_max as usize >> 7) % 2],
+        1 | 2 => [255u16, 256][(c.channel_max as usize >> 7) % 2],
+        _ => 1 + (c.channel_max >> 7) % 40,
+    };
+    c.ops.truncate(60);
+    for op in c.ops.iter_mut() {
+        match op {
+            Op::FillAuto(k) => *k %= 20,
+            Op::CloseLowest(k) => *k %= 6,
+            _ => {}
+        }
+    }
+    c
+}
+
 pub fn parts() -> Vec<Box<dyn PartDyn>> {
     vec![Box::new(Part::<Case> {
         name: "model",
@@ -407,5 +426,6 @@ pub fn parts() -> Vec<Box<dyn PartDyn>> {
         enumerate: Some(enumerate),
         shrink_budget: 3000,
         confirm_runs: 1,
+            fuzz: Some(fuzz_case),
     })]
 }
